@@ -152,11 +152,19 @@ def check_property(prop, tier, seed, only=None):
         write_evidence(prop, tier, seed, {}, [], [], [], [], ["injection failed: %s" % e], time.time() - t0, [])
         return 2
 
+    # required harnesses run first (own cargo-kani invocation), stretch harnesses afterwards with whatever budget is left:
+    # a stretch harness that eats the budget can then never starve a required one
     groups = {}
     for h in hs:
-        groups.setdefault(h.group(), []).append(h)
+        groups.setdefault((0 if h.required else 1,) + h.group(), []).append(h)
     budget = int(os.environ.get("GV_BUDGET_S", "840" if tier == "quick" else "3500"))
-    for (pkg, feats), ghs in sorted(groups.items()):
+    for (phase, pkg, feats), ghs in sorted(groups.items()):
+        if phase == 1 and budget - int(time.time() - t0) < 120:
+            for h in ghs:
+                r = kani.HarnessResult(h)
+                r.status, r.note = "timeout", "not started: wall-clock budget of the check exhausted by earlier harnesses"
+                results[h.name] = r
+            continue
         target_dir = os.path.join(scratch, "target-%s-%s" % (pkg, feats.replace(",", "_") or "default"))
         # as many CBMC processes as fit: the j largest memory caps must fit into the memory budget together
         mem_total = float(os.environ.get("GV_MEM_GB", "44"))
@@ -167,7 +175,7 @@ def check_property(prop, tier, seed, only=None):
                 jobs = j
         remaining = max(120, budget - int(time.time() - t0))
         res, info = kani.run_group(repo_copy, pkg, feats, ghs, target_dir, log_dir, jobs, remaining,
-                                   tag="%s_%s" % (pkg, feats.replace(",", "_") or "default"))
+                                   tag="%s_%s%s" % (pkg, feats.replace(",", "_") or "default", "_stretch" if phase else ""))
         runs.append(info)
         results.update(res)
         # candidate violations -> native replay
